@@ -519,3 +519,14 @@ def run(ctx):
     # points are then correlated (leaf typestate of C05; the round-5 C04 seed tested `_midway` by truthiness)
     from . import c05
     ctx.guard(c05.r05_2)
+
+
+_run_before_replay = run
+
+
+def run(ctx):
+    _run_before_replay(ctx)
+    # small-model replay of the real tree: the interplay of cache, search hint, dependency tree, splitting and rounding over
+    # whole query histories, on exact rationals with symbolic noise (replay.py)
+    from . import replay_rules
+    ctx.guard(replay_rules.r04_10)
